@@ -645,7 +645,12 @@ pub fn cmp_entry(de: &DirEntry, e: &fatspec::Ent) -> Option<String> {
 /// what it must print for the reader's bytes (every non-space byte in order, a dot before the
 /// extension).
 pub fn same_name(n: &embedded_sdmmc::ShortFileName, raw: &[u8; 11]) -> bool {
-    if n.csum() != fatspec::sfn_checksum(raw) {
+    // the checksum is over the bytes as stored: a name that starts with 0xE5 is stored with 0x05
+    let mut stored = *raw;
+    if stored[0] == 0xE5 {
+        stored[0] = 0x05;
+    }
+    if n.csum() != fatspec::sfn_checksum(&stored) {
         return false;
     }
     let mut want = String::new();
